@@ -78,6 +78,10 @@ EXPLANATION += (
     ' Round 11: a column number fetched with .get() is not tested for truth (R-IDIOM/truthy-position).'
 )
 
+EXPLANATION += (
+    ' Round 12: the validator compares names as stored, without coercion (R-EXH/validator-checks).'
+)
+
 RULE_TEXT = (
     "one obligation per constructor path, per attribute-assignment site, "
     "per mutation candidate, per helper parameter, per accessor x caller, "
